@@ -42,6 +42,11 @@ def eval (fn : String) (args : List String) (impl : String) : Option Verdict := 
     pure { model := "alive",
            propFails := if impl == "alive" then [] else
              [s!"C18 burst ({String.intercalate " " args}): the UPF stopped answering ({impl}) sig={if known then "wedge:perioLoop" else "wedge:below-queue-sizes"}"] }
+  | "wedge.tickrace" =>
+    -- one session, a handful of events: far below every queue size, nothing here may stop the loop
+    pure { model := "alive",
+           propFails := if impl == "alive" then [] else
+             [s!"C18 a tick still queued when its period's last URR disappeared ({String.intercalate " " args}): afterwards the registration of the next periodic URR never returned and the UPF stopped answering ({impl}) sig=wedge:staleTick"] }
   | _ => none
 
 end UpfVerif.Driver.ConcD
